@@ -124,6 +124,36 @@ def array_job(j):
         o["kind"] = "golden-" + o["kind"]
         o["array"] = name
         v.append(o)
+    # the array goes on living under the current build: a file copied to the other disks (same relative path, size and time-stamp:
+    # copy detection inherits its hashes) and a new file, one sync, one check
+    if name.endswith("-migrating"):
+        L.restore(S)
+        L.scan_versions()
+        c0 = L.content()
+        # preferably a file whose stripes still wait for the migration
+        tagged = {i for i, inf in enumerate(c0.info) if inf is not None and inf[2]}
+        cand = [(d.name.decode(), f.sub.decode(errors="surrogateescape"), any(pos in tagged for _, pos, _ in f.blocks))
+                for d in c0.disks.values() for f in d.files if f.size > 1024]
+        cand.sort(key=lambda x: not x[2])
+        src = cand[0][:2] if cand else None
+        if src:
+            for dn in L.cfg.disknames:
+                if dn != src[0] and not os.path.lexists(L.p(dn, src[1])):
+                    L.cp(src[0], src[1], dn, src[1])
+        L.write(L.cfg.disknames[-1], "added-later", L.gen("added-later", 2100))
+        r = L.run("sync")
+        n += 1
+        if r.rc != 0:
+            v.append(dict(kind="golden-array-sync-after-copy-fails", array=name, rc=r.rc, out=r.text()[-400:]))
+        else:
+            r2 = L.run("check")
+            n += 1
+            if r2.rc != 0:
+                v.append(dict(kind="golden-array-check-after-sync-fails", array=name, rc=r2.rc, out=r2.text()[-300:]))
+            for o in X.c06(L, name + " after copy+sync"):
+                o["kind"] = "golden-after-sync-" + o["kind"]
+                o["array"] = name
+                v.append(o)
     return dict(viols=v, n=n)
 
 
